@@ -193,7 +193,7 @@ def save_history(history):
 
 def execute_interpreter_command(s):
     args = s[len(INTERPRETER_COMMAND_PREFIX):].split()
-    cmd_name = args[0]
+    cmd_name = args[0] if args else ""
     args = args[1:]
     for names, cmd in INTERPRETER_COMMANDS:
         if (isinstance(names, tuple) and cmd_name in names) or (isinstance(names, str) and cmd_name == names):
